@@ -559,6 +559,18 @@ func init() {
 				add(fmt.Sprintf("p%d.%d", i, j), p.src, text)
 			}
 		}
+		// 1b. texts beyond 64 KiB and beyond 65 536 lines: offsets, lines and columns that do not fit 16 bits, next to
+		// small ones (anything that keys, packs or caches a range by its end points shows here)
+		{
+			long := "ab" + strings.Repeat("x", 65535) + "ab" + strings.Repeat("y", 70) + "ab"
+			lines := "ab\n" + strings.Repeat("\n", 65534) + "ab cd\nab"
+			wide := strings.Repeat("q", 3) + "ab" + strings.Repeat("\n", 300) + strings.Repeat("z", 65536) + "ab"
+			for i, t := range []string{long, lines, wide} {
+				add(fmt.Sprintf("big%d.f", i), "find all 'ab'", t)
+				add(fmt.Sprintf("big%d.r", i), "replace all ('a' = x) 'b' with x value", t)
+				add(fmt.Sprintf("big%d.l", i), "find last 2 at least 1 ('a' = x 'b') named lp", t)
+			}
+		}
 		// 2. literal programs built from the text's own pieces (escapes in the source too)
 		nlit := sizes(tier, 150, 3000)
 		for i := 0; i < nlit; i++ {
